@@ -37,3 +37,13 @@ def check_distribution(dist, cases):
     if signable * 10 < cases * 3:
         return f"only {signable}/{cases} generated contents contain a signing token"
     return None
+
+
+def focus(req):
+    """Neighbourhood of a disagreeing case: the same content, every edit position, a few replacements."""
+    f = req.split("\t")
+    if len(f) != 4 or f[0] != "signed.c33":
+        return []
+    n = (0 if f[1] == "-" else len(f[1]) // 2) + 64
+    reps = ["20", "09", "0a", "78", "30", "-"]
+    return [f"signed.c33\t{f[1]}\t{pos}\t{rep}" for pos in range(n) for rep in reps]
